@@ -3,7 +3,7 @@
    `recurse` fields, as token lists; what makes the templates panic ("not yet supported" combinations, an Option or collection without
    generic arguments) is part of the model (None). The function bodies (diff, diff_ref, apply_single, Into, setters) are not modelled
    as text: their behaviour is the subject of the Inst / R models. Executable; extracted for the correspondence check. *)
-From Coq Require Import List Arith Bool String Ascii.
+From Coq Require Import List Arith Bool String Ascii DecimalString.
 Import ListNotations.
 Require Import P.ParseModel P.ParseGrammar P.ParsePrintModel P.ParseDecl P.ParseInterp P.ParseUsed P.ParseHeader.
 Local Open Scope string_scope. Local Open Scope list_scope.
@@ -30,8 +30,12 @@ Definition lib (l: list string) : list tt := pth ("structdiff" :: "collections" 
 Fixpoint join_amp (ls: list (list tt)) : list tt := match ls with [] => [] | [x] => x | x :: r => x ++ TP PComma :: amp_target ++ join_amp r end.
 
 Record fdefs := { fd_aliases: list (list tt); fd_ref_aliases: list (list tt); fd_variants: list (string * list tt); fd_ref_variants: list (string * list tt) }.
+(* usize::to_string *)
+Definition dec (n: nat) : string := NilEmpty.string_of_uint (Nat.to_uint n).
+(* the struct's name with its length in front (the aliases of exposed structs share a module: `A` + `bc` must not meet `Ab` + `c`) *)
+Definition alias_owner (sname: string) : string := (dec (String.length (strip_raw sname)) ++ strip_raw sname)%string.
 Definition alias_names (sname ident: string) : string * string :=
-  (("__" ++ strip_raw sname ++ ident ++ "StructDiffVec")%string, ("__" ++ strip_raw sname ++ ident ++ "StructDiffRefVec")%string).
+  (("__" ++ alias_owner sname ++ ident ++ "StructDiffVec")%string, ("__" ++ alias_owner sname ++ ident ++ "StructDiffRefVec")%string).
 Definition alias_item (name: string) (inner: list tt) : list tt :=
   [TId "type"; TId name; TP PEq; TId "Vec"; TP PLt; TP PLt] ++ inner ++ [TId "as"; TId "StructDiff"; TP PGt; TP PColon; TP PColon; TId "Diff"; TP PGt].
 Definition ref_alias_item (name: string) (inner: list tt) : list tt :=
